@@ -11,33 +11,30 @@ COMMON_NOTE = ("Trusted: Coq 8.16.1 kernel (coqc; coqchk -o in the thorough tier
 
 # id -> (claimed?, technique, level text, extra note)
 P = {
- "C01": ("Coq proof (inductive tiling invariant over all schedules) + lock-step correspondence",
-         "Theorem c01_known_kinds: for slice/vector/array/range sources of every length, every thread count, every per-thread program and every schedule whose fetch_adds do not wrap, "
-         "check_prop 1 (no duplicate; tiling of the source once the end is reported and nothing is pending) is true on the model's trace; proved by an inductive invariant "
-         "(delivered intervals tile [0, min(counter,len))). The same extracted checker judges the crate's traces (all kinds incl. the wrapped iterator and cloned/copied) on generated, "
-         "DFS-enumerated and harness-chosen schedules.",
-         "The theorem covers the known-size kinds; the wrapped-iterator kind is covered by the correspondence and the extracted checker only (partial)."),
- "C02": ("Coq proof (per-event invariant) + lock-step correspondence",
-         "Theorem c02_known_kinds: chk_C02 (every reported index is the element's source position) holds on every trace of the known-size kinds, all schedules, incl. loops, chunks and skips.",
-         "Known-size kinds proved; wrapped iterator by correspondence + extracted checker (partial)."),
- "C03": ("Coq proof (per-event invariant, chunk arithmetic by lia) + lock-step correspondence",
-         "Theorem c03_known_kinds: chk_C03 (chunk non-empty, <= n, consecutive from begin index, announced length exact before/after partial consumption, short only at the end) on every trace of the known-size kinds, one-shot and buffered.",
-         "Known-size kinds proved; wrapped iterator (incl. the re-used buffer) by correspondence + extracted checker (partial)."),
- "C05": ("Coq proof (monotone-counter invariant) + lock-step correspondence",
-         "Theorem c05_known_kinds: chk_C05 (after an end report every later-starting pull reports the end, delivers nothing, lengths are zero) on every trace of the known-size kinds.",
-         "Known-size kinds proved; wrapped iterator by correspondence + extracted checker (partial)."),
- "C06": ("Coq proof (invariant with skip bookkeeping) + lock-step correspondence",
-         "Theorem c06_known_kinds: check_prop 6 (after a returned skip_to_end later pulls report the end and has_more is No; no duplicate, index fidelity, order) on every trace of the known-size kinds with any number of skips anywhere.",
-         "Known-size kinds proved; wrapped iterator by correspondence + extracted checker (partial). Found F13 (range skip stored the end value), repaired by a fix: commit."),
+ "C01": ('Coq proof (inductive tiling invariants over all schedules: counter machine and ticket machine) + lock-step correspondence',
+         "Theorem c01_exactly_once: for every source kind (slice, vector, array, range, also under cloned()/copied(); the wrapper over an arbitrary iterator with any size hint), every length, every thread count, every per-thread program and every schedule whose fetch_adds do not wrap, check_prop 1 (no position delivered twice; once the end is reported and nothing is pending the deliveries tile the source) is true on the model's trace. Proved from two inductive invariants: delivered/held intervals tile [0, min(counter,len)) for the known-size kinds, and [0, cursor) for the wrapped iterator together with the ticket-protocol invariant Prot (disjoint tickets, the ticket at the yielded counter owns the critical section, taken elements are the positions [b, b+k)). The same extracted checker judges the crate's traces on generated, DFS-enumerated and harness-chosen schedules.",
+         'The model executes one call of the wrapped next() as one step; that abstraction is justified by the mutual-exclusion theorem c07_mutual_exclusion proved on the same machine.'),
+ "C02": ('Coq proof (per-event invariant; for the wrapped iterator: taken elements are [b, b+k) where b is the ticket) + lock-step correspondence',
+         "Theorem c02_index_fidelity: for every source kind (slice, vector, array, range, also under cloned()/copied(); the wrapper over an arbitrary iterator with any size hint), every length, every thread count, every per-thread program and every schedule whose fetch_adds do not wrap, chk_C02 (every reported index is the element's source position: single pulls, chunk offsets, ids_and_values, enumerate_for_each) holds on the model's trace.",
+         'Sources whose values are an injective non-identity function of the position are used on the crate side so that index/value mix-ups cannot cancel.'),
+ "C03": ("Coq proof (per-event invariant, chunk arithmetic by lia; partial chunks of the ticket machine end at the source's end) + lock-step correspondence",
+         "Theorem c03_chunk_contract: for every source kind (slice, vector, array, range, also under cloned()/copied(); the wrapper over an arbitrary iterator with any size hint), every length, every thread count, every per-thread program and every schedule whose fetch_adds do not wrap, chk_C03 (chunk non-empty, <= n, consecutive from the begin index, announced length exact before and after partial consumption, short only at the end of the source) on the model's trace, one-shot and buffered.",
+         "The slots of the wrapped iterator's re-used buffer are modelled; the announced/yielded counts of the crate are compared by the correspondence (generator leaves chunks partly consumed before short last chunks)."),
+ "C05": ('Coq proof (monotone counter; completed flag / exhausted cursor are stable and every later pull is doomed not to take) + lock-step correspondence',
+         "Theorem c05_end_is_permanent: for every source kind (slice, vector, array, range, also under cloned()/copied(); the wrapper over an arbitrary iterator with any size hint), every length, every thread count, every per-thread program and every schedule whose fetch_adds do not wrap, chk_C05 (after an end report every later-starting pull reports the end and delivers nothing, every later length query reports zero/unknown) on the model's trace.",
+         ''),
+ "C06": ('Coq proof (invariants with skip bookkeeping; for the wrapped iterator: skip raises the completed flag, which every later pull tests first) + lock-step correspondence',
+         "Theorem c06_skip_to_end: for every source kind (slice, vector, array, range, also under cloned()/copied(); the wrapper over an arbitrary iterator with any size hint), every length, every thread count, every per-thread program and every schedule whose fetch_adds do not wrap, check_prop 6 (after a returned skip_to_end later pulls report the end and has_more is No; no duplicate, index fidelity, order) on the model's trace with any number of skips anywhere.",
+         'Found F13 (range skip stored the end value), repaired by a fix: commit.'),
  "C11": ("Coq proof (quiescent-state tiling + monotone reported length) + lock-step correspondence",
          "Theorem c11_known_kinds: chk_C11 (quiescent try_get_len/has_more equal the number of elements still to be delivered; reported lengths never increase; zero/No is definitive) on every trace of the known-size kinds.",
          "Known-size kinds proved; wrapped iterator (exact/inexact/unbounded hints) by correspondence + extracted checker (partial)."),
- "C12": ("Coq proof (loop accumulator invariant) + lock-step correspondence",
-         "Theorem c12_known_kinds: check_prop 12 (closure invoked exactly once per element with the right index shape; loops return only after the end) for for_each/enumerate_for_each/fold loops of any chunk sizes mixed with direct pulls, known-size kinds, all schedules.",
-         "The fold-combination clause (commutative monoid) is not stated in Coq yet; wrapped iterator by correspondence (partial)."),
- "C04": ("Coq proof (tiling + gap-free-prefix invariant, induction over the schedule) + lock-step correspondence with call/return times",
-         "Theorem c04_known_kinds: check_prop 4 (at every point of the history where no call is pending the delivered positions are a gap-free prefix; each thread receives increasing positions; a pull that starts after another returned receives larger positions) on every trace of the known-size kinds, all schedules, skips included.",
-         "Known-size kinds proved; wrapped iterator by correspondence + extracted checker (partial). The sequential corollary (single-threaded history = sequential iterator) is the one-thread instance of the theorem together with C02/C03."),
+ "C12": ('Coq proof (loop accumulator invariant on both machines) + lock-step correspondence',
+         'Theorem c12_loops: for every source kind (slice, vector, array, range, also under cloned()/copied(); the wrapper over an arbitrary iterator with any size hint), every length, every thread count, every per-thread program and every schedule whose fetch_adds do not wrap, check_prop 12 (closure invoked exactly once per element with the right index shape; loops return only after the end) for for_each/enumerate_for_each/fold loops of any chunk sizes mixed with direct pulls.',
+         'The fold-combination clause (commutative monoid) is not stated in Coq yet (partial on that clause).'),
+ "C04": ('Coq proof (tiling invariants; everything else lies below the interval at the top; induction over the schedule for the quiescent prefix) + lock-step correspondence with call/return times',
+         "Theorem c04_linearizable_cursor: for every source kind (slice, vector, array, range, also under cloned()/copied(); the wrapper over an arbitrary iterator with any size hint), every length, every thread count, every per-thread program and every schedule whose fetch_adds do not wrap, check_prop 4 (at every point of the history where no call is pending the delivered positions are a gap-free prefix; each thread receives increasing positions; a pull that starts after another returned receives larger positions) on the model's trace, skips included.",
+         'The sequential corollary (single-threaded history = sequential iterator) is the one-thread instance together with C02/C03.'),
  "C08": ("Coq proof (ledger tiling invariant: taken and destroyed intervals tile [0, min(counter,len))) + drop-ledger correspondence",
          "Theorems c08_known_kinds_run / c08_known_kinds_end_of_life: for consuming vectors and arrays, at every point of every schedule the moved-out and the machinery-destroyed intervals are pairwise disjoint and inside the source, and after drop or into_seq_iter (any number taken from the remainder) at any quiescent point they tile the source exactly: every element moved out or destroyed exactly once; for borrowed sources nothing is ever destroyed.",
          "Known-size consuming kinds proved; owning wrapped iterator by correspondence + extracted checker (partial)."),
